@@ -419,7 +419,11 @@ func classOfDifference(tc *tcase, a1 []common.Address) string {
 			}
 		}
 	}
-	if len(tc.classes) > 0 {
+	// the unvalidated path agrees with the own derivation set by set: the difference is on the validated side
+	if len(tc.classes) > 1 {
+		return "several-sets"
+	}
+	if len(tc.classes) == 1 {
 		return tc.classes[0]
 	}
 	return "?"
@@ -629,7 +633,7 @@ func main() {
 	scratch := vf.Scratch("c17")
 	defer os.RemoveAll(scratch)
 	rng := vf.NewRNG(vf.Seed())
-	total := vf.N(2000, 40000)
+	total := vf.N(2000, 60000)
 	pl := plan(rng, total)
 	m := &monitor{r: r}
 	vf.Parallel(len(pl), runtime.NumCPU(), func(i int) {
